@@ -346,7 +346,10 @@ func HBroken(t, pos int) {
 	if pos >= len(a) {
 		return
 	}
-	a[pos] = zz.Byte()
+	c := zz.Byte()
+	// number spellings with a fraction or exponent go through strconv.ParseFloat / big.Rat: outside this check
+	zz.Assume(zz.And(zz.And(c != '.', c != 'e'), c != 'E'))
+	a[pos] = c
 	_, _ = Equal(a, b)
 	_, _ = Equal(b, a)
 	zz.Cover("malformed-text-compared")
